@@ -1,7 +1,9 @@
 (** C13 — the negotiated msize is never exceeded by either peer.
     Statements only; proofs in Frame/SizesProofs.v (pure arithmetic over N, all values). *)
-From Coq Require Import NArith List Bool.
+From Coq Require Import ZArith NArith List Bool.
+From Coq Require String.
 From P9V Require Import gen.ConstGen gen.CodecGen Codec.Reuse Frame.Sizes Frame.SizesProofs Frame.Model Frame.Instantiate Frame.SizesLink Frame.SizesGen.
+From P9V Require Import Base.GoArith gen.ArithGen Frame.ArithTie.
 Import ListNotations.
 Open Scope N_scope.
 
@@ -146,3 +148,56 @@ Example C13_hist_example :
 Proof. split; reflexivity. Qed.
 Print Assumptions C13_rreaddir_unnegotiated.
 Print Assumptions C13_payload_size.
+
+(** ---- the arithmetic of the SOURCE (translated by go2coq ArithGen on every run, gen/ArithGen.v) ----
+    connState.maxReplyPayload, roundDown, every assignment to Client.payloadSize and the final value of
+    `count` in tread.handle / treaddir.handle / clientFile.Readdir are Gallina functions over Z with Go's
+    uint32 wrap-around at every operation; they equal the hand model's functions for every 32-bit value
+    (no sampling), so the theorems above are theorems about what the code computes now. *)
+Theorem C13_source_arithmetic_is_model :
+  (forall m, is_u32 m -> gen_maxReplyPayload (Z.of_N m) = Z.of_N (max_reply_payload m)) /\
+  (forall p a, is_u32 p -> is_u32 a -> 0 < a -> gen_roundDown (Z.of_N p) (Z.of_N a) = Z.of_N (round_down p a)) /\
+  Forall (fun f => forall m, is_u32 m -> f (Z.of_N m) (Z.of_N largestFixedSize) = Z.of_N (payload_size m)) gen_payloadSize_sites /\
+  (forall c m, is_u32 c -> is_u32 m -> gen_tread_count (Z.of_N c) (Z.of_N m) = Z.of_N (N.min c (max_reply_payload m))) /\
+  (forall c m, is_u32 c -> is_u32 m -> gen_treaddir_count (Z.of_N c) (Z.of_N m) = Z.of_N (N.min c (max_reply_payload m))) /\
+  (forall c m, is_u32 c -> is_u32 m -> gen_readdir_count (Z.of_N c) (Z.of_N m) = Z.of_N (readdir_count m c)).
+Proof.
+  exact (conj gen_maxReplyPayload_ok (conj gen_roundDown_ok (conj gen_payloadSize_ok
+        (conj gen_tread_count_ok (conj gen_treaddir_count_ok gen_readdir_count_ok))))).
+Qed.
+Print Assumptions C13_source_arithmetic_is_model.
+
+(** the property's two clauses over the translated arithmetic: whatever count a Tread/Treaddir asks for
+    (all 2^32 values) and whatever msize >= 11 is in force, header + count[4] + data of the length the
+    source computes fit; the client's chunk size leaves room for the 23-byte Twrite header and is
+    positive; the count the client sends in Treaddir leaves room for the 11-byte reply header *)
+Theorem C13_source_server_clamps_fit : forall count m, is_u32 count -> is_u32 m -> 11 <= m ->
+  (11 + gen_tread_count (Z.of_N count) (Z.of_N m) <= Z.of_N m /\
+   11 + gen_treaddir_count (Z.of_N count) (Z.of_N m) <= Z.of_N m)%Z.
+Proof. exact generated_server_clamps_fit. Qed.
+Print Assumptions C13_source_server_clamps_fit.
+Theorem C13_source_client_payload_fits : forall m, is_u32 m -> largestFixedSize < m ->
+  Forall (fun f => (23 + f (Z.of_N m) (Z.of_N largestFixedSize) <= Z.of_N m /\ 0 < f (Z.of_N m) (Z.of_N largestFixedSize))%Z) gen_payloadSize_sites.
+Proof. exact generated_client_payload_fits. Qed.
+Print Assumptions C13_source_client_payload_fits.
+Theorem C13_source_client_readdir_fits : forall count m, is_u32 count -> is_u32 m -> 11 <= m ->
+  (11 + gen_readdir_count (Z.of_N count) (Z.of_N m) <= Z.of_N m)%Z.
+Proof. exact generated_client_readdir_fits. Qed.
+Print Assumptions C13_source_client_readdir_fits.
+
+(** where the clamped count is used and where the raw request field is still read: the generated lists equal
+    the reviewed tables of Frame/ArithTie.v (tread hands dataBuf[:count] to ReadAt and to the xattr copy and reads
+    t.Count only in the ENOBUFS guard and the xattr range test; treaddir puts the clamped count in the reply;
+    the client sends the clamped count) *)
+Theorem C13_source_count_uses :
+  gen_tread_count_uses = tread_count_uses_reviewed /\
+  gen_treaddir_count_uses = treaddir_count_uses_reviewed /\
+  gen_readdir_count_uses = readdir_count_uses_reviewed.
+Proof. exact (conj tie_tread_count_uses (conj tie_treaddir_count_uses tie_readdir_count_uses)). Qed.
+Print Assumptions C13_source_count_uses.
+
+Example C13_ex_source_arithmetic :
+  gen_maxReplyPayload 8192 = 8181%Z /\ gen_maxReplyPayload 0 = 4194293%Z /\ gen_maxReplyPayload 5 = 0%Z /\
+  gen_tread_count 4294967295 8192 = 8181%Z /\ gen_readdir_count 70000 65536 = 65525%Z /\
+  map (fun f => f 65536 153)%Z gen_payloadSize_sites = [65024; 65024]%Z.
+Proof. vm_compute. repeat split. Qed.
